@@ -620,6 +620,9 @@ func (a *Agent) IsKnownRequestID(teamserver TeamServer, RequestID uint32, Comman
 		return true
 	}
 
+	a.JobMtx.Lock()
+	defer a.JobMtx.Unlock()
+
 	for i := range a.Tasks {
 		if a.Tasks[i].RequestID == RequestID {
 			return true
@@ -630,12 +633,18 @@ func (a *Agent) IsKnownRequestID(teamserver TeamServer, RequestID uint32, Comman
 
 // the operator added a new request/command
 func (a *Agent) AddRequest(job Job) []Job {
+	a.JobMtx.Lock()
+	defer a.JobMtx.Unlock()
+
 	a.Tasks = append(a.Tasks, job)
 	return a.Tasks
 }
 
 // after a request has been completed, we can forget about the RequestID so that it is no longer valid
 func (a *Agent) RequestCompleted(RequestID uint32) {
+	a.JobMtx.Lock()
+	defer a.JobMtx.Unlock()
+
 	for i := range a.Tasks {
 		if a.Tasks[i].RequestID == RequestID {
 			a.Tasks = append(a.Tasks[:i], a.Tasks[i+1:]...)
@@ -653,12 +662,20 @@ func (a *Agent) AddJobToQueue(job Job) []Job {
 		a.PivotAddJob(job)
 		// if it's a direct agent add the job to the direct agent
 	} else {
+		a.JobMtx.Lock()
 		a.JobQueue = append(a.JobQueue, job)
+		a.JobMtx.Unlock()
 	}
+
+	a.JobMtx.Lock()
+	defer a.JobMtx.Unlock()
 	return a.JobQueue
 }
 
 func (a *Agent) GetQueuedJobs() []Job {
+	a.JobMtx.Lock()
+	defer a.JobMtx.Unlock()
+
 	var Jobs []Job
 	var JobsSize = 0
 	var NumJobs = 0
@@ -766,7 +783,9 @@ func (a *Agent) PivotAddJob(job Job) {
 	// add this job to pivot queue.
 	// tho it's not going to be used besides for the task size calculator
 	// which is going to be displayed to the operator.
+	a.JobMtx.Lock()
 	a.JobQueue = append(a.JobQueue, job)
+	a.JobMtx.Unlock()
 
 	PivotJob = Job{
 		Command: COMMAND_PIVOT,
@@ -810,7 +829,9 @@ func (a *Agent) PivotAddJob(job Job) {
 		pivots = &pivots.Parent.Pivots
 	}
 
+	pivots.Parent.JobMtx.Lock()
 	pivots.Parent.JobQueue = append(pivots.Parent.JobQueue, PivotJob)
+	pivots.Parent.JobMtx.Unlock()
 }
 
 func (a *Agent) DownloadAdd(FileID int, FilePath string, FileSize int64) error {
